@@ -1122,10 +1122,10 @@ def run(components=None, broker=None):
     # ./meta_data directory are prepopulated in the broker as Specs so
     # no need to collect them again
     if broker.get(SerializedArchiveContext) is not None:
-        for comp in list(components):
-            if comp in broker:
-                for dep in components[comp]:
-                    components.pop(dep, None)
+        loaded_deps = [components[comp] for comp in components if comp in broker]
+        for deps in loaded_deps:
+            for dep in deps:
+                components.pop(dep, None)
     return run_components(run_order(components), components, broker)
 
 
